@@ -231,6 +231,10 @@ def b_len(ex, args, kwargs, st, sink, node):
         if hook:
             yield from hook(ex, v, st, sink)
             return
+        if k == "ref":
+            for st2, m in ex.getattr(v, "__len__", st, sink, node):
+                yield from ex.call(m, [], {}, st2, sink, node)
+            return
         raise Unsupported(f"len of {v.ty!r}")
 
 
